@@ -13,7 +13,8 @@ PROP = "C09"
 def soup_cases(ctx, n):
     cases = []
     for i in range(n):
-        args = {"text": soup.rand_text(ctx.rng), "config": soup.rand_config(ctx.rng), "source": "SRC-%d" % (i % 5)}
+        args = {"text": soup.rand_text(ctx.rng), "config": soup.rand_config(ctx.rng), # (the source tag is "any value of any type": a document id, a row number - also 0 -, an empty string)
+                "source": [("SRC-%d" % (i % 5)), i % 7, 0, "", "doc 12, row 3"][i % 5]}
         if ctx.rng.random() < 0.3:
             args["kw"] = {"parse_qq": True}
         cases.append({"id": "s%d" % i, "kind": "plss", "origin": "soup", "abs": {}, "args": args})
